@@ -78,6 +78,13 @@ def replay(w):
         res, table, seen_beta, path, cost, lens, K, T, b = _joint(w)
     except Exception as exc:
         return {'reproduced': True, 'signature': 'run-raises', 'observed': {'raised': repr(exc)}}
+    rows = int(np.asarray(table).shape[0])
+    lists = res.point_labels
+    complete = rows == T and isinstance(lists, list) and [len(x) for x in lists] == lens
+    if ob == 'every_series_reaches_the_labelling_step' or not complete:
+        return {'reproduced': not complete, 'signature': None if complete else 'a-series-is-missing-from-the-joint-run',
+                'observed': {'series_lengths': lens, 'rows_labelled': rows,
+                             'label_lists': [len(x) for x in lists] if isinstance(lists, list) else repr(type(lists))}}
     bp = _boundary_pairs(lens)
     want = [0.0 if i in bp else b for i in range(T)]
     obs = {'beta_seen_by_kernel': seen_beta.tolist(), 'expected_per_pair': want[:-1], 'labels': path}
